@@ -567,6 +567,14 @@ def c10_worlds(rng: random.Random) -> list[dict]:
     # the valid prefixes themselves must stay accepted
     for pn, prefix in PREFIXES.items():
         W(f"valid_prefix_{pn}", {M: PREFIX_MACROS + f"def 0 {{\n    {prefix}\n    ok();\n    end;\n}}\n"}, expect="accept")
+    # programs marked as SsbScript take another path through compile() (dispatch on the meta attribute)
+    MK = "//?: is-ssb-script: true\n"
+    W("ssbscript_syntax_error", {M: MK + "def 0 {\n    a(;\n}\n"})
+    W("ssbscript_jump_to_undefined_label", {M: MK + "def 0 {\n    a();\n    Jump(@nowhere);\n}\n"})
+    W("ssbscript_inline_context", {M: MK + "def 0 {\n    a<actor 1>();\n    End();\n}\n"})
+    W("ssbscript_valid", {M: MK + "def 0 {\n    @l;\n    a(1, 'x');\n    Jump(@l);\n}\n"}, expect="accept")
+    W("ssbscript_marker_in_imported_file", {M: 'import "./d1.exps";\n' + VALID_MAIN, "/proj/SCRIPT/d1.exps": MK + "def 0 {\n    a();\n    End();\n}\n"},
+      expect="answer")
     # recursive macros whose names also exist in an imported file (the import must not hide the cycle)
     lib_helper = "macro helper() {\n    lib_op();\n}\nmacro pong() {\n    lib_pong();\n}\n"
     W("macro_self_recursion_name_also_imported", {M: 'import "./lib.exps";\nmacro helper() {\n    main_op();\n    ~helper();\n}\ndef 0 {\n    ~helper();\n    end;\n}\n',
